@@ -571,9 +571,31 @@ def other_dialect_like(ctx, xs, rows, ast_reqs, ast_meta):
 
 
 # ---------------------------------------------------------------------------------------------------------------------
+import re as _re
+_IDENT = _re.compile(r'^[A-Za-z_]\w*$')
+
+
+def py_json_path(values):
+    """the JSON path a sequence of keys / indexes denotes (harness re-statement, independent of SQLBuilder.eval_json_path)"""
+    out = '$'
+    for v in values:
+        if isinstance(v, int): out += '[%d]' % v
+        elif _IDENT.match(v) and v.isascii(): out += '.' + v
+        else: out += '."%s"' % v.replace('"', '\\"')
+    return out
+
+
+def with_jpath(B):
+    """the dialect builder plus one harness node: ['JPATH', elem, ...] renders SQLBuilder.build_json_path(path) - the real
+    build_json_path / make_composite_param / CompositeParam.eval (the dialect JSON_* nodes wrap exactly this value)"""
+    return type('J' + B.__name__, (B,), {'JPATH': lambda builder, *path: builder.build_json_path(path)[0]})
+
+
 def statements(ctx, strings):
-    """whole statements: placeholders with repeats, literals, MOD - real builders, five styles; executed on real SQLite after lowering"""
-    rng = ctx.rng; con = sqlite_con(); builders = builder_classes()
+    """whole statements: placeholders with repeats, literals, MOD, composite (JSON path) parameters that share variables and differ in
+    constant keys - real builders, five styles; executed on real SQLite after lowering; every selected item compared per placeholder"""
+    rng = ctx.rng; con = sqlite_con(); builders = {n: with_jpath(B) for n, B in builder_classes().items()}
+    JKEYS = ['title', 'body', 'de', 'en', 'a b', 'x"y', '0', 'é', 0, 1, 3]
     reqs = []; meta = []
     pool = [s for s in strings if len(s) <= 8]
     for rd in range(ctx.scale(60, 1500)):
@@ -583,9 +605,30 @@ def statements(ctx, strings):
         for k in keys:
             vals[k] = rng.choice([rng.choice(pool), rng.choice(pool), rng.randrange(-5, 100), None, bytes([rng.randrange(256)])])
         items = []; expected = []; occ = []
+        jvars = rng.sample(range(100, 140), rng.choice([1, 2]))
+        for k in jvars: vals[k] = rng.choice(JKEYS)
+        jids = {}; jkeys = {}
+        def add_jpath(desc):
+            # desc: tuple of ('p', var) / ('c', const); one composite parameter per distinct description
+            cid = jids.setdefault(desc, 1000 + len(jids))
+            jkeys[tuple((d[1], None, None) if d[0] == 'p' else d[1] for d in desc)] = cid
+            vals[cid] = py_json_path([vals[d[1]] if d[0] == 'p' else d[1] for d in desc])
+            items.append(['JPATH'] + [['PARAM', (d[1], None, None)] if d[0] == 'p' else ['VALUE', d[1]] for d in desc])
+            expected.append(vals[cid]); occ.append(cid)
         for _ in range(rng.choice([1, 2, 3, 5, 8, 12])):
             r = rng.random()
-            if r < 0.55:
+            if r < 0.16:
+                desc = [('p', rng.choice(jvars)) if rng.random() < 0.5 else ('c', rng.choice(JKEYS)) for _ in range(rng.choice([1, 2, 3]))]
+                if not any(d[0] == 'p' for d in desc): desc[rng.randrange(len(desc))] = ('p', rng.choice(jvars))
+                add_jpath(tuple(desc))
+                if rng.random() < 0.7:
+                    # a sibling path through the same variable(s) that differs only in constant keys (or repeats the path exactly)
+                    sib = list(desc); cpos = [i for i, d in enumerate(sib) if d[0] == 'c']
+                    if cpos and rng.random() < 0.8:
+                        i = rng.choice(cpos); sib[i] = ('c', rng.choice([x for x in JKEYS if x != sib[i][1]]))
+                    elif rng.random() < 0.5: sib.append(('c', rng.choice(JKEYS)))
+                    add_jpath(tuple(sib))
+            elif r < 0.55:
                 k = rng.choice(keys); items.append(['PARAM', (k, None, None)]); expected.append(vals[k]); occ.append(k)
             elif r < 0.85:
                 v = rng.choice([rng.choice(pool), rng.choice(SPECIAL), rng.randrange(-3, 1000), None, True, b'\x00\xff'])
@@ -599,16 +642,24 @@ def statements(ctx, strings):
                     items.append(['MOD', ['VALUE', a], ['VALUE', b]]); expected.append(a % b)
         ast = ['SELECT', ['ALL'] + items]
         for style in STYLES:
-            bname = rng.choice(list(builders))
+            bname = rng.choice([n for n in builders if not (jids and n == 'oracle')])    # OraBuilder refuses parameters in JSON paths (TranslationError)
             B = builders[bname]
             b = B(FakeProvider(style, '`' if bname == 'mysql' else '"'), ast)
             args = b.adapter(vals)
             phs = [str(x) for x in b.result if isinstance(x, Param)]
             ctx.case(['statement', style, bname, occ, [repr(e)[:12] for e in expected]], kind='statement:' + style)
             ctx.count('statement:repeats' if len(set(occ)) < len(occ) else 'statement:no-repeats')
+            if len(jids) > 1: ctx.count('statement:several-composite-params')
+            # tie of the hypothesis of C06_make_param_cache on the real objects: the key under which make_param caches a composite
+            # parameter must contain every item that determines its value
+            for pk, prm in b.keys.items():
+                if hasattr(prm, 'items'):
+                    full = tuple(it.paramkey if isinstance(it, Param) else it.value for it in prm.items)
+                    if tuple(pk) != full:
+                        ctx.divergence('the cache key of a composite parameter does not contain every item of the path', [style, bname, repr(pk)], model=repr(full), impl=repr(pk))
             # model tie
             reqs.append({'op': 'params', 'style': style, 'occ': occ})
-            meta.append((style, bname, occ, phs, [pk[0] for pk in b.layout], args, vals))
+            meta.append((style, bname, occ, phs, [jkeys.get(pk, pk[0]) if len(pk) != 3 or pk in jkeys or not (pk[1] is None and pk[2] is None) else pk[0] for pk in b.layout], args, dict(vals)))
             # property oracle: execute on real SQLite the way a driver of this style would
             try:
                 with warnings.catch_warnings():
